@@ -418,13 +418,17 @@ class Installer:
         # copyfile fails if the target file already exists, so remove it to
         # allow overwriting a previous install. If the target is not a file, we
         # want to give a readable error.
-        if os.path.exists(to_file):
-            if not os.path.isfile(to_file):
-                raise MesonException(f'Destination {to_file!r} already exists and is not a file')
-            if self.should_preserve_existing_file(from_file, to_file):
-                append_to_log(self.lf, f'# Preserving old file {to_file}\n')
-                self.preserved_file_count += 1
-                return False
+        # A dangling symlink (e.g. left by a previous install whose link target
+        # has since been removed) is always replaced.
+        dangling = os.path.islink(to_file) and not os.path.exists(to_file)
+        if os.path.exists(to_file) or dangling:
+            if not dangling:
+                if not os.path.isfile(to_file):
+                    raise MesonException(f'Destination {to_file!r} already exists and is not a file')
+                if self.should_preserve_existing_file(from_file, to_file):
+                    append_to_log(self.lf, f'# Preserving old file {to_file}\n')
+                    self.preserved_file_count += 1
+                    return False
             self.log(f'Installing {from_file} to {outdir}')
             self.remove(to_file)
         else:
